@@ -365,11 +365,11 @@ def main(chk, args):
     reserved = set(reserved_names())
     pool = ThreadPoolExecutor(8)
     import time as _time
-    t0 = _time.time()
+    _start = _time.time()
     timing = chk.extra.setdefault('timing_s', {})
 
     def lap(name):
-        timing[name] = round(_time.time() - t0, 1)
+        timing[name] = round(_time.time() - _start, 1)
 
     # 1. the specification satisfies the property within the bounds; the mutants are rejected -------------------
     jobs = [('Types model check (small)', pool.submit(tlc.run, 'Types', cfg_text('Types.small.cfg'), deadlock=False, timeout=1500,
